@@ -820,6 +820,13 @@ impl KotoVm {
                     !matches!(error.error, ErrorKind::Timeout(_)),
                 ) {
                     Ok((recover_register, ip)) => {
+                        // The register stack may have been truncated while a call was being
+                        // prepared, so ensure that the frame's registers are available again.
+                        if self.registers.len() < self.min_frame_registers {
+                            self.registers
+                                .resize(self.min_frame_registers, KValue::Null);
+                        }
+
                         let catch_value = match error.error {
                             ErrorKind::KotoError { thrown_value, .. } => thrown_value,
                             _ => KValue::Str(error.to_string().into()),
